@@ -126,7 +126,11 @@ func (c Commitment) MiningBlob() MiningBlob {
 	hashingid := c.HashingID()
 
 	// sort OtherChains, since an incorrect ordering gives incorrect results during hashing
-	chains := append(c.OtherChains, hashingid)
+	// (on a copy: appending to c.OtherChains and sorting the result would reorder the block's own OtherChains
+	// whenever that slice has spare capacity)
+	chains := make([]HashingID, 0, len(c.OtherChains)+1)
+	chains = append(chains, c.OtherChains...)
+	chains = append(chains, hashingid)
 	slices.SortFunc(chains, func(a, b HashingID) int {
 		if a.NetworkID < b.NetworkID {
 			return -1
